@@ -1,29 +1,38 @@
 import AquaProps.Lemmas.PanicExecTop
+import AquaProps.Lemmas.VerifyData
 import Aqua.Gen.PanicSites
 /-!
 # C01 — the interpreter never crashes or runs out of memory on adversarial input
 
 Panics are VALUES of the model (`Res.panic site`, DESIGN.md §4.2): every `unwrap`/`expect`/`unreachable!`/index/
 unchecked `u32` arithmetic that the Rust code performs on the modelled paths is a branch returning the
-site's name.  "Never panics" is therefore a statement about the model and — on the unchanged tree — it is
-FALSE: eleven sites are reached by concrete inputs (the `example`s below; the harness replays each of them
-on the real interpreter).  What is proved:
+site's name.  "Never panics" is therefore a statement about the model.  State after the repairs in /repo
+(0e86aa7 … d774f34: error_code, scalar/iterator clash, non-JSON raw value, absent trace CID, `try_get_generation`,
+`set_position_and_len`, `set_subtrace_len`): the property is still FALSE — four sites are reached by adversarial
+CURRENT data (the three `argument_hash` unwraps of `handle_prev_state`, `checked_add(1).unwrap()` on a generation
+`u32::MAX`), two more only by previous data the interpreter never produces (request counter `u32::MAX`; a non-JSON
+value text, which preparation now rejects in current data).  What is proved:
 
 * `C01_exec_panic_sites_partial` / `C01_exec_farewell_panic_sites_partial`: for ALL environments, fuels,
   scripts, previous/current data, run parameters and call results, the execution stage (and the farewell
-  compaction) of the model panics ONLY at a site of the literal list `modelledExecPanicSites`;
-* one `example` per witnessed site: a concrete run that does panic there;
-* `C01_exec_no_panic_partial`: if the JSON reader accepts every text, the raw-value site is excluded;
-  `C01_*_panics_iff`: for the witnessed sites, the exact local condition under which the component panics
-  (the input class that has to be excluded / repaired);
-* `C01_trace_handler_panic_sites`: the trace handler alone, over ALL operation sequences and traces;
+  compaction) of the model panics ONLY at a site of the literal list `modelledExecPanicSites` (6 witnessed + 16
+  invariant-guarded);
+* one `example` per witnessed site: a concrete run that does panic there; for the repaired sites an `example`
+  of the same input now ending in the error the code returns;
+* `C01_*_never_panics` + the exact error for the repaired components (`Scalars::get_value`, `check_error_object`,
+  `set_position_and_len`, `set_subtrace_len`, `try_get_generation`); `C01_*_panics_iff` for the remaining witnessed
+  components;
+* `C01_exec_no_panic_partial`: if the JSON reader accepts every text, the raw-value site is excluded, and
+  `C01_raw_value_guard_established_by_preparation`: for current data the verification step establishes exactly that;
+* `C01_trace_handler_panic_sites`: the trace handler alone, over ALL operation sequences and traces (6 sites, none
+  known to be reachable through the executor);
 * `C01_sites_claimed_by_inventory`: every site string of the theorems is claimed by a scanned Rust site of
   the generated inventory (`Aqua/Gen/PanicSites.lean`, regenerated from the repository on every check).
 -/
 namespace AquaProps.C01
 open Aqua Aqua.Exec Aqua.Air Aqua.Trace Aqua.Json Aqua.Data AquaProps.Panic
 
-/-- the literal list: witnessed sites first, then the sites guarded by internal invariants (see
+/-- the literal list (22 sites): witnessed sites first, then the sites guarded by internal invariants (see
 `Panic.execWitnessedSites` / `Panic.execResidualSites`) -/
 def modelledExecPanicSites : List String := Panic.execPanicSites
 
@@ -73,15 +82,26 @@ theorem C01_exec_no_panic_partial (env : Env) (hjson : ∀ t, (env.parseJson t).
   revert hb
   decide
 
+/-- **The guard of `C01_exec_no_panic_partial` is established by preparation for CURRENT data** (since /repo 7eb402e):
+`CidInfo::verify` rejects a value-store text that `serde_json::from_str` rejects (`MalformedValue`), so after a
+successful verification every stored value of the current data parses.  (Previous data is the peer's own output: its
+texts are renderings of parsed values; values added during the run are renderings too.) -/
+theorem C01_raw_value_guard_established_by_preparation (E : Run.VerifyEnv) (env : Env)
+    (hE : ∀ t, E.isJson t = (env.parseJson t).isSome) (ci : Run.CidInfo) (h : ci.verify E = .ok ()) :
+    ∀ cid raw, (cid, raw) ∈ ci.values → (env.parseJson raw).isSome = true := by
+  intro cid raw hm
+  rw [← hE]
+  exact (AquaProps.VerifyLemmas.verify_ok h).valueJson cid raw hm
+
 /-- every site string used in the theorems is claimed, in `sites/panic_sites.json`, by a panic site that the
 translator scanned in the Rust code of this check's repository -/
 theorem C01_sites_claimed_by_inventory : ∀ s ∈ modelledExecPanicSites, s ∈ Gen.modelledPanicSites := by decide
 
 /-- **Full statement** (not provable on the unchanged tree — its negation is witnessed below): no input makes
 any public entry point panic, abort or allocate out of proportion.  Missing from the partial theorems: the
-guards for the ten other witnessed sites need invariants of the run (they are given locally as `…_panics_iff`);
+guards for the other witnessed sites need invariants of the run (they are given locally as `…_panics_iff`);
 the residual sites need the executor's internal invariants; stream maps / canon maps, the preparation and
-verification stages (signature check: `verification.rs` expect), the parser, the pretty-printer and the
+verification stages (modelled for C14 in `Aqua/Run/VerifyData.lean`, panic-free since b547c87), the parser, the pretty-printer and the
 beautifier are not modelled; stack and heap exhaustion are run-time facts that no model exhibits — they are
 measured on the process by the harness (child process, RLIMIT_AS, counting allocator). -/
 def C01_full : Prop :=
@@ -109,51 +129,38 @@ theorem sparse_getValue_never_panics {α} (m : SparseMatrix α) (n s : String) :
     · cases h
     · split at h <;> cases h
 
-/-- the scalar/iterator clash: `Scalars::get_value` hits `unreachable!` exactly when the name is bound both as a
-scalar (visible at the current depth) and as a fold iterator -/
-theorem C01_getValue_clash_iff (s : Scalars) (name : String) (site : String) :
-    s.getValue name = .panic site ↔
-      ((∃ v, s.nonIterable.getValue name = .ok (some v)) ∧ (s.iterable.find? (fun (k, _) => k == name)).isSome) ∧
-        site = "scalar_variables.rs:get_value:unreachable(this is checked on the parsing stage)" := by
+/-! ### repaired in /repo (0e86aa7 … d774f34): these components no longer panic -/
+
+/-- `Scalars::get_value` never panics (66d8bd2) … -/
+theorem C01_getValue_never_panics (s : Scalars) (name site : String) : s.getValue name ≠ .panic site := by
   unfold Scalars.getValue
   cases hv : s.nonIterable.getValue name with
   | panic p => exact absurd hv (sparse_getValue_never_panics _ _ _)
-  | error e =>
-    cases hi : s.iterable.find? (fun (k, _) => k == name) with
-    | none => simp [catchable]
-    | some kf => simp
+  | error e => cases s.iterable.find? (fun (k, _) => k == name) <;> simp [catchable]
   | ok o =>
     cases o with
     | none => simp [catchable]
-    | some x =>
-      cases hi : s.iterable.find? (fun (k, _) => k == name) with
-      | none => simp
-      | some kf => simp; exact eq_comm
+    | some x => cases s.iterable.find? (fun (k, _) => k == name) <;> simp [uncatchable]
 
-/-- `(fail x)`: the only panic of `check_error_object` is `as_i64().unwrap()` on an `error_code` above `i64::MAX` -/
-theorem C01_checkErrorObject_panics (v : JVal) (s : String) (h : checkErrorObject v = .panic s) :
-    (∃ n, v.getField "error_code" = some (.num n) ∧ n > 9223372036854775807) ∧
-      s = "instruction_error_definition.rs:ensure_error_code_correct:as_i64().unwrap()" := by
+/-- … and a name bound both as a visible scalar and as a fold iterator is the uncatchable `IterableShadowing`
+(it was `unreachable!()`) -/
+theorem C01_getValue_clash_is_error (s : Scalars) (name : String) (v : ValueAggregate) (kf : String × FoldState)
+    (hv : s.nonIterable.getValue name = .ok (some v)) (hi : s.iterable.find? (fun (k, _) => k == name) = some kf) :
+    s.getValue name = .error (.uncatchable (.iterableShadowing name)) := by
+  unfold Scalars.getValue
+  simp [hv, hi, uncatchable]
+
+/-- `check_error_object` never panics (0e86aa7) … -/
+theorem C01_checkErrorObject_never_panics (v : JVal) (s : String) : checkErrorObject v ≠ .panic s := by
+  intro h
   unfold checkErrorObject at h
-  split at h
-  · split at h
-    · cases h
-    · rename_i code hcode
-      split at h
-      · rename_i n
-        split at h
-        · rename_i hgt
-          cases h
-          exact ⟨⟨n, hcode, hgt⟩, rfl⟩
-        · split at h
-          · cases h
-          · split at h <;> cases h
-      · cases h
-  · cases h
+  repeat' split at h
+  all_goals cases h
 
-theorem C01_checkErrorObject_panics_of (kvs : List (String × JVal)) (n : Int)
+/-- … an `error_code` above `i64::MAX` is rejected as "must have integer type" -/
+theorem C01_checkErrorObject_big_code_rejected (kvs : List (String × JVal)) (n : Int)
     (hf : (JVal.obj kvs).getField "error_code" = some (.num n)) (hgt : n > 9223372036854775807) :
-    checkErrorObject (.obj kvs) = .panic "instruction_error_definition.rs:ensure_error_code_correct:as_i64().unwrap()" := by
+    checkErrorObject (.obj kvs) = .error (.scalarFieldIsWrongType (.obj kvs) "error_code" "integer") := by
   unfold checkErrorObject
   simp only [hf]
   simp [hgt]
@@ -170,31 +177,31 @@ theorem C01_addValueToGeneration_panics_iff (m : ValuesMatrix) (v : ValueAggrega
     · intro hs; cases hs
     · rintro ⟨h', _⟩; exact absurd h' h
 
-theorem C01_setPositionAndLen_panics_iff (sl : TraceSlider) (pos len : Nat) (s : String) :
-    sl.setPositionAndLen pos len = .panic s ↔ (len ≠ 0 ∧ pos + len > u32Max) ∧ s = sSPL := by
-  unfold TraceSlider.setPositionAndLen addU32
-  by_cases hl : len = 0
-  · subst hl; simp [pure]
-  · by_cases ho : pos + len > u32Max
-    · simp [hl, ho, bind, Res.bind, sSPL]; exact eq_comm
-    · simp [hl, ho, bind, Res.bind, pure]
-      split <;> simp
+/-- `set_position_and_len` never panics (95e5498): a position + length beyond `u32::MAX` is "out of the trace" -/
+theorem C01_setPositionAndLen_never_panics (sl : TraceSlider) (pos len : Nat) (s : String) :
+    sl.setPositionAndLen pos len ≠ .panic s := fun h => by
+  have := setPositionAndLen_in (L := []) sl pos len s h
+  cases this
 
-theorem C01_setSubtraceLen_panics_iff (sl : TraceSlider) (len : Nat) (s : String) :
-    sl.setSubtraceLen len = .panic s ↔ sl.trace.length < sl.position ∧ s = sSSL := by
-  unfold TraceSlider.setSubtraceLen subU32
-  by_cases h : sl.trace.length < sl.position
-  · simp [h, bind, Res.bind, sSSL]; exact eq_comm
-  · simp [h, bind, Res.bind, pure]
-    split <;> simp
+theorem C01_setPositionAndLen_overflow_is_error (sl : TraceSlider) (pos len : Nat) (hl : len ≠ 0) (ho : pos + len > u32Max) :
+    sl.setPositionAndLen pos len = .error .setSubtraceLenAndPosFailed := by
+  unfold TraceSlider.setPositionAndLen
+  simp [hl, ho]
 
-theorem C01_tryGetGeneration_panics_iff (sl : TraceSlider) (pos : Nat) (s : String) :
-    tryGetGeneration sl pos = .panic s ↔ sl.stateAtPosition pos = some (.ap []) ∧ s = sTGG := by
+/-- `set_subtrace_len` never panics (d774f34): a position beyond the trace leaves a remainder of 0 -/
+theorem C01_setSubtraceLen_never_panics (sl : TraceSlider) (len : Nat) (s : String) : sl.setSubtraceLen len ≠ .panic s := fun h => by
+  have := setSubtraceLen_in (L := []) sl len s h
+  cases this
+
+/-- `try_get_generation` never panics (8502764): an `ap` state without generations is `NoStreamState` -/
+theorem C01_tryGetGeneration_never_panics (sl : TraceSlider) (pos : Nat) (s : String) : tryGetGeneration sl pos ≠ .panic s := fun h => by
+  have := tryGetGeneration_in (L := []) sl pos s h
+  cases this
+
+theorem C01_tryGetGeneration_empty_ap_is_error (sl : TraceSlider) (pos : Nat) (h : sl.stateAtPosition pos = some (.ap [])) :
+    tryGetGeneration sl pos = .error .noStreamState := by
   unfold tryGetGeneration
-  split <;> simp_all [sTGG]
-  · split <;> simp_all
-    exact eq_comm
-
+  simp [h]
 
 /-! ## witnesses: each of these sites IS reached (the proved negation of "never panics")
 
@@ -234,36 +241,43 @@ example : (runExec env0 1 (.call (lit "a") (lit "s") (lit "f") [] (.scalar "x"))
     = .panic "context.rs:next_call_request_id:last_call_request_id+=1" := by
   simp only [runExec, exec]; rfl
 
-/-- 6. a scalar and a fold iterator with the same name (an ordinary script, honest data: the second run) -/
+/-- REPAIRED (66d8bd2): a scalar and a fold iterator with the same name (an ordinary script, honest data: the second run)
+now ends in the uncatchable `IterableShadowing` -/
 def sClash : Instr :=
   .seq (.call (lit "a") (lit "s") (lit "arr") [] (.scalar "x"))
        (.foldScalar (.scalar "x") "x" (.seq (.call (lit "a") (lit "s") (lit "id") [.scalar "x"] .none) (.next "x")) none)
 example : (runExec env0 4 sClash { trace := [.call (.requestSentBy (.peerIdWithCallId "a" 1))], lcid := 1 } {} p0 [("1", ⟨0, "[1,2]"⟩)]).1
-    = .panic "scalar_variables.rs:get_value:unreachable(this is checked on the parsing stage)" := by
+    = .error (.uncatchable (.iterableShadowing "x")) := by
   simp only [runExec, sClash, exec, execInner]; rfl
 
-/-- 7. `(fail x)` with `error_code` above `i64::MAX` -/
+/-- REPAIRED (0e86aa7): `(fail x)` with `error_code` above `i64::MAX` is the catchable `InvalidErrorObjectError`
+("error_code … must have integer type") -/
 def sFail : Instr := .seq (.call (lit "a") (lit "s") (lit "f") [] (.scalar "x")) (.fail (.scalar "x"))
-example : (runExec env0 2 sFail { trace := [.call (.requestSentBy (.peerIdWithCallId "a" 1))], lcid := 1 } {} p0 [("1", ⟨0, "E"⟩)]).1
-    = .panic "instruction_error_definition.rs:ensure_error_code_correct:as_i64().unwrap()" := by
+def isWrongErrorCodeType : Res ExecErr Unit → Bool
+  | .error (.catchable (.invalidErrorObjectError (.scalarFieldIsWrongType _ "error_code" "integer"))) => true
+  | _ => false
+example : isWrongErrorCodeType
+    (runExec env0 2 sFail { trace := [.call (.requestSentBy (.peerIdWithCallId "a" 1))], lcid := 1 } {} p0 [("1", ⟨0, "E"⟩)]).1 = true := by
   simp only [runExec, sFail, exec, execInner]; rfl
 
-/-- 8. a stream value recorded with generation `u32::MAX` -/
+/-- 6. a stream value recorded with generation `u32::MAX` -/
 example : (runExec env0 1 (callB (.stream "$s" 1)) {} { trace := [.call (.executed (.stream "c" 4294967295))], cid := stores "1" } p0 []).1
     = .panic "values_matrix.rs:add_value_to_generation:generation_idx.checked_add(1).unwrap()" := by
   simp only [runExec, callB, exec]; rfl
 
-/-- 9. hostile fold lore in the data of a stream fold: a value position naming an `ap` state without generations
-(10.–11., the lore positions, are witnessed on the trace handler below: the fold loops of `exec` are defined by
-well-founded recursion, which the kernel does not unfold under a binder) -/
+/-- REPAIRED (8502764, 95e5498, d774f34): hostile fold lore in the data of a stream fold.  A value position naming an `ap`
+state without generations is now the uncatchable `TraceError` (`NoStreamState`); the lore positions are shown on the
+trace handler below (the fold loops of `exec` are well-founded recursions the kernel does not unfold under a binder) -/
 def sFold (body : Instr) : Instr := .seq (callB (.stream "$s" 1)) (.foldStream "$s" 1 "i" body none 0)
 def bodySeq : Instr := .seq (.call (lit "a") (lit "s") (lit "id") [.scalar "i"] (.scalar "y")) (.next "i")
 def bodyPar : Instr := .par (.call (lit "a") (lit "s") (lit "id") [.scalar "i"] (.scalar "y")) (.next "i")
 def dFold (lore : List FoldSubTraceLore) (rest : Trace) : DataIn :=
   { trace := [.call (.executed (.stream "c" 0)), .fold lore] ++ rest, cid := stores "1" }
 
-example : (runExec env0 3 (sFold bodySeq) {} (dFold [⟨2, [⟨3, 0⟩, ⟨3, 0⟩]⟩] [.ap []]) p0 []).1
-    = .panic "merge_ctx.rs:try_get_generation:res_generations[0]" := by
+def isNoStreamStateTraceError : Res ExecErr Unit → Bool
+  | .error (.uncatchable (.traceError (.merge (.keeper .noStreamState)) _)) => true
+  | _ => false
+example : isNoStreamStateTraceError (runExec env0 3 (sFold bodySeq) {} (dFold [⟨2, [⟨3, 0⟩, ⟨3, 0⟩]⟩] [.ap []]) p0 []).1 = true := by
   simp only [runExec, sFold, callB, exec, execInner]; rfl
 
 /-! ## the trace handler alone, over all operation sequences -/
@@ -299,13 +313,10 @@ def runOps : List TraceOp → TraceHandler → TR TraceHandler
   | [], h => .ok h
   | op :: rest, h => (applyOp h op).bind (runOps rest)
 
-def traceHandlerPanicSites : List String := [sSPL, sSSL, sTGG, sCUM, sLB, sLA, sCUR0, sCURI, sTB]
+def traceHandlerPanicSites : List String := [sCUM, sLB, sLA, sCUR0, sCURI, sTB]
 
 theorem applyOp_panic_sites (h : TraceHandler) (op : TraceOp) : ResIn traceHandlerPanicSites (applyOp h op) := by
   have m : ∀ s ∈ traceHandlerPanicSites, s ∈ traceHandlerPanicSites := fun _ h => h
-  have h1 : sSPL ∈ traceHandlerPanicSites := by simp [traceHandlerPanicSites]
-  have h2 : sSSL ∈ traceHandlerPanicSites := by simp [traceHandlerPanicSites]
-  have h3 : sTGG ∈ traceHandlerPanicSites := by simp [traceHandlerPanicSites]
   have h6 : sCUM ∈ traceHandlerPanicSites := by simp [traceHandlerPanicSites]
   have h7 : sLB ∈ traceHandlerPanicSites := by simp [traceHandlerPanicSites]
   have h8 : sLA ∈ traceHandlerPanicSites := by simp [traceHandlerPanicSites]
@@ -319,14 +330,14 @@ theorem applyOp_panic_sites (h : TraceHandler) (op : TraceOp) : ResIn traceHandl
   | apEnd g => exact resIn_ok _
   | canonStart => exact resIn_rbind (meetCanonStart_in h) fun _ => resIn_ok _
   | canonEnd c => exact resIn_ok _
-  | parStart => exact meetParStart_in h2 h
-  | parEnd t => exact meetParSubgraphEnd_in h1 h2 h t
-  | foldStart id => exact meetFoldStart_in h3 h6 h id
-  | iterStart id pos => exact meetIterationStart_in h1 h2 h id pos
+  | parStart => exact meetParStart_in h
+  | parEnd t => exact meetParSubgraphEnd_in h t
+  | foldStart id => exact meetFoldStart_in h6 h id
+  | iterStart id pos => exact meetIterationStart_in h id pos
   | iterEnd id => exact meetIterationEnd_in h9 h10 h id
-  | backIter id => exact meetBackIterator_in h9 h10 h11 h1 h2 h id
+  | backIter id => exact meetBackIterator_in h9 h10 h11 h id
   | genEnd id => exact meetGenerationEnd_in h7 h8 h id
-  | foldEnd id => exact meetFoldEnd_in h1 h id
+  | foldEnd id => exact meetFoldEnd_in h id
   | updateGeneration p g =>
     show ResIn _ (match h.updateGeneration p g with | .ok h' => (.ok h' : TR TraceHandler) | .error _ => .ok h | .panic s => .panic s)
     split
@@ -337,7 +348,9 @@ theorem applyOp_panic_sites (h : TraceHandler) (op : TraceOp) : ResIn traceHandl
       unfold TraceHandler.updateGeneration at hs
       split at hs <;> cases hs
 
-/-- **the trace handler panics only at nine arithmetic / index sites (the two `position - 1` sites of the position mapping are proved unreachable: `tryMergeNextStateAsCall_never`)**, whatever the two traces and whatever
+/-- **the trace handler panics only at six arithmetic / index sites — none of which the executor is known to reach (the two
+`position - 1` sites of the position mapping are proved unreachable: `tryMergeNextStateAsCall_never`; the slider and
+`try_get_generation` sites were repaired in /repo 95e5498, d774f34, 8502764 and are proved panic-free above)**, whatever the two traces and whatever
 sequence of entry points is called on it (any handler state, not only reachable ones) -/
 theorem C01_trace_handler_panic_sites (ops : List TraceOp) (h : TraceHandler) (s : String)
     (hp : runOps ops h = .panic s) : s ∈ traceHandlerPanicSites := by
@@ -355,15 +368,14 @@ theorem C01_trace_handler_panic_sites_from_traces (prev cur : Trace) (ops : List
     (hp : runOps ops (TraceHandler.fromTrace prev cur) = .panic s) : s ∈ traceHandlerPanicSites :=
   C01_trace_handler_panic_sites ops _ s hp
 
-/-- 10. lore `begin = u32::MAX, len = 1`: the executor's calls for `(seq (call b .. $s) (fold $s i ..))` on the data
-`[stream value, fold lore, sent]` are `call_start, call_end, fold_start, iteration_start` -/
+/-- REPAIRED: lore `begin = u32::MAX, len = 1`: the executor's calls for `(seq (call b .. $s) (fold $s i ..))` on the data
+`[stream value, fold lore, sent]` are `call_start, call_end, fold_start, iteration_start`; the last one is now rejected -/
 example : runOps [.callStart, .callEnd (.executed (.stream "c" 0)), .foldStart 1, .iterStart 1 0]
     (TraceHandler.fromTrace [] [.call (.executed (.stream "c" 0)), .fold [⟨0, [⟨4294967295, 1⟩, ⟨2, 0⟩]⟩], .call (.requestSentBy (.peerId "b"))])
-    = .panic sSPL := by rfl
-/-- 11. lore `begin = 4·10⁹, len = 0` followed by a `par` in the fold body: `trace_len - position` underflows -/
-example : runOps [.callStart, .callEnd (.executed (.stream "c" 0)), .foldStart 1, .iterStart 1 0, .parStart]
-    (TraceHandler.fromTrace [] [.call (.executed (.stream "c" 0)), .fold [⟨0, [⟨4000000000, 0⟩, ⟨2, 0⟩]⟩]])
-    = .panic sSSL := by rfl
+    = .error (.fsm (.keeper .setSubtraceLenAndPosFailed)) := by rfl
+/-- REPAIRED: lore `begin = 4·10⁹, len = 0` followed by a `par` in the fold body: `trace_len - position` saturates at 0 -/
+example : (match runOps [.callStart, .callEnd (.executed (.stream "c" 0)), .foldStart 1, .iterStart 1 0, .parStart]
+    (TraceHandler.fromTrace [] [.call (.executed (.stream "c" 0)), .fold [⟨0, [⟨4000000000, 0⟩, ⟨2, 0⟩]⟩]]) with | .ok _ => true | _ => false) = true := by rfl
 
 /-- op-sequence witnesses of sites the executor is not known to reach -/
 example : runOps [.foldStart 1, .iterEnd 1] (TraceHandler.fromTrace [] []) = .panic sCUR0 := by rfl
